@@ -105,6 +105,9 @@ def run (args : List String) : Option String :=
     let n ← parseNat? n
     let a ← parseOpt? parseInt? a; let b ← parseOpt? parseInt? b; let c ← parseInt? c
     pure (fmtList fmtInt (PySliceStep.sel n a b c))
+  | ["isst", a] => do
+    let a ← parseAff? a
+    pure (fmtBool (isAffineST a))
   | ["params", kw] => do
     -- `[k=v,…]` → forwarded and remaining keys (sorted), values verbatim
     let kvs ← (← parseListRaw? kw).mapM (fun (t : String) => match t.splitOn "=" with
